@@ -5,11 +5,16 @@
 cd /verif
 ids="$@"; [ -z "$ids" ] && ids=$(ls seeded | grep '^C[0-9]*_' | sort)
 BIN=/tmp/symgo_matrix_$$; cp bin/symgo $BIN
+# snapshot of the harnesses and configs, so that /verif can be edited while this runs
+SNAP=/tmp/symgo_matrix_snap_$$; rm -rf $SNAP; mkdir -p $SNAP
+cp -r /verif/harness $SNAP/harness; cp /verif/known_findings.json $SNAP/; [ -d /verif/spec ] && cp -r /verif/spec $SNAP/spec
+export SYMGO_VERIF=$SNAP
+trap 'rm -rf $SNAP $BIN' EXIT
 out=/verif/seeded/MATRIX.md
 [ -f $out ] || echo "| mutation | property check | detected | fingerprints / notes |" > $out
 for id in $ids; do
   prop=${id%_*}
-  [ -f harness/config/$prop.json ] || { echo "| $id | $prop | no check yet | |" >> $out; continue; }
+  [ -f $SNAP/harness/config/$prop.json ] || { echo "| $id | $prop | no check yet | |" >> $out; continue; }
   wt=/tmp/mutwt_$id; rm -rf $wt; git -C /repo worktree prune
   git -C /repo worktree add -q --detach $wt HEAD || continue
   (cd $wt && git apply /verif/seeded/$id/patch.diff) || { echo "| $id | $prop | patch does not apply | |" >> $out; git -C /repo worktree remove --force $wt; continue; }
